@@ -5,6 +5,7 @@ import (
 	"fmt"
 	"io"
 	"net"
+	"os"
 	"time"
 
 	"github.com/containerd/nri/pkg/zzverif/vsched"
@@ -15,10 +16,11 @@ import (
 // choices.
 
 type half struct {
-	buf     []byte
-	eof     bool // writer side closed or pipe severed: readers get EOF after draining
-	name    string
-	written int // total bytes ever accepted
+	buf      []byte
+	eof      bool // writer side closed or pipe severed: readers get EOF after draining
+	name     string
+	written  int // total bytes ever accepted
+	consumed int // total bytes ever read
 }
 
 type pipe struct {
@@ -27,12 +29,15 @@ type pipe struct {
 	faults     *faultCfg
 	cutAt      string // description of the cut that happened
 	shortReads int
+	timedOut   string
 }
 
 type faultCfg struct {
 	cut       bool // a trunk write may be cut after k bytes
 	shortRead bool // a trunk read may return fewer bytes than available
 	cutUsed   bool
+	timeout   bool // one trunk read may fail with a deadline error (at a frame boundary or after one more byte); the trunk keeps working
+	timeoutSt int  // 0 unused, 1 armed (the next read fails), 2 done
 }
 
 type end struct {
@@ -60,6 +65,27 @@ func (e *end) Read(b []byte) (int, error) {
 	if len(e.rd.buf) == 0 {
 		return 0, io.EOF
 	}
+	if f := e.p.faults; f != nil && f.timeout {
+		if f.timeoutSt == 1 {
+			f.timeoutSt = 2
+			e.p.timedOut = fmt.Sprintf("read on %s failed with a deadline error at stream offset %d", e.name, e.rd.consumed)
+			return 0, &net.OpError{Op: "read", Net: "mem", Err: os.ErrDeadlineExceeded}
+		}
+		if f.timeoutSt == 0 {
+			switch vsched.Choose(3, "timeout") {
+			case 1:
+				f.timeoutSt = 2
+				e.p.timedOut = fmt.Sprintf("read on %s failed with a deadline error at stream offset %d", e.name, e.rd.consumed)
+				return 0, &net.OpError{Op: "read", Net: "mem", Err: os.ErrDeadlineExceeded}
+			case 2:
+				f.timeoutSt = 1
+				copy(b, e.rd.buf[:1])
+				e.rd.buf = e.rd.buf[1:]
+				e.rd.consumed++
+				return 1, nil
+			}
+		}
+	}
 	n := len(e.rd.buf)
 	if n > len(b) {
 		n = len(b)
@@ -72,6 +98,7 @@ func (e *end) Read(b []byte) (int, error) {
 	}
 	copy(b, e.rd.buf[:n])
 	e.rd.buf = e.rd.buf[n:]
+	e.rd.consumed += n
 	return n, nil
 }
 
